@@ -285,6 +285,11 @@ def run_costs(ctx: Ctx):
         # the indices it served with the same running value, so totals agree; evaluation counts may differ by rounding per index)
         lines.append('cost_alloc ' + enc([[[q(c) for c in g] for g in groups]]))
         meta.append((case, got_c, got_n, groups))
+        # the account up to iteration k (one model call per iteration here) versus Model/Cost.v allocation_upto
+        for k in range(1, len(groups) + 1):
+            ca_k, ea_k, _, _ = system.get_allocation(k)
+            lines.append('cost_alloc_upto ' + enc([k, [[q(c) for c in g] for g in groups]]))
+            meta.append(({**case, 'up_to_iteration': k}, sum(ca_k[comp.name].values()), sum(ea_k[comp.name].values()), groups[:k]))
     for (case, got_c, got_n, groups), mo in zip(meta, run_model(lines) if lines else []):
         if isinstance(mo, ModelError):
             ctx.disagree('C09:model-error', case, str(mo), None); continue
